@@ -28,14 +28,19 @@ def enumerate_all(tier, rng):
 
 def make_case(i, rng, tier):
     from .. import synth
+    if rng.random() < 0.004:
+        af = common.aligned_fault(rng)
+        if af:
+            inp, data, recs = af
+            return common.mk_case(rng, inp, data, recs, perturbation=False)
     if rng.random() < 0.1:
         inp = synth.gen_input(rng)
     else:
-        inp = common.gen_input(rng, common.target_for(i, rng))
+        inp = common.gen_input(rng, common.target_for(i, rng), huge=True)
     o = model.decode(inp["root"], inp["data"], cc=inp["cc"], enc=inp["enc"])
     if not o.ok:
         raise HarnessError("generator produced a malformed input: %s %s" % (inp["label"], o.problem))
-    if enumerate_all(tier, rng) and len(o.sizefields) <= 30:
+    if enumerate_all(tier, rng) and len(o.sizefields) <= 30 and len(inp["data"]) <= 1500:
         vs = []
         cands = []
         for idx, _r in o.sizefields:
